@@ -36,6 +36,8 @@ import (
 type recorder struct {
 	mu   sync.Mutex
 	reqs []string
+	// status answered to every request (200, or an error status: a client must not turn one call into several requests)
+	status int
 }
 
 func (r *recorder) RoundTrip(req *http.Request) (*http.Response, error) {
@@ -58,7 +60,14 @@ func (r *recorder) RoundTrip(req *http.Request) (*http.Response, error) {
 	if q.Get("watch") == "true" || strings.Contains(req.URL.Path, "/watch/") {
 		body = ""
 	}
-	return &http.Response{StatusCode: 200, Header: http.Header{"Content-Type": []string{"application/json"}},
+	status := r.status
+	if status == 0 {
+		status = 200
+	}
+	if status != 200 {
+		body = fmt.Sprintf(`{"kind":"Status","apiVersion":"v1","status":"Failure","reason":%q,"code":%d}`, http.StatusText(status), status)
+	}
+	return &http.Response{StatusCode: status, Header: http.Header{"Content-Type": []string{"application/json"}},
 		Body: io.NopCloser(bytes.NewBufferString(body)), Request: req}, nil
 }
 
@@ -86,7 +95,7 @@ func restdiff(w *bufio.Writer, seed uint64, tier string, stats map[string]int) {
 				if round > 0 && !r.Chance(1, 3) {
 					continue
 				}
-				rec := &recorder{}
+				rec := &recorder{status: []int{200, 200, 404, 500, 410}[r.Intn(5)]}
 				cs, err := kubernetes.NewForConfig(&rest.Config{Host: "http://kverif.invalid", Transport: rec})
 				if err != nil {
 					fmt.Fprintln(w, kv.L("rest-error", name, kv.Atom(err.Error())))
